@@ -12,7 +12,7 @@ from .sandbox import scratch_root
 
 SPEC_DIR = os.path.join(os.path.dirname(os.path.dirname(os.path.abspath(__file__))), 'spec')
 TLC_CP = '/opt/veriftools/tla/tla2tools.jar:/opt/veriftools/tla/CommunityModules-deps.jar'
-VERDICT_RE = re.compile(r'<<\s*"VERDICT",\s*"([^"]*)",\s*"(accepted|rejected)",\s*(\d+),\s*"([^"]*)",\s*<<([\d,\s]*)>>,\s*\{([^}]*)\}\s*>>')
+VERDICT_RE = re.compile(r'<<\s*"VERDICT",\s*"([^"]*)",\s*"(accepted|rejected)",\s*(\d+),\s*"([^"]*)",\s*\{([^}]*)\},\s*<<([\d,\s]*)>>,\s*\{([^}]*)\}\s*>>')
 STAT_NAMES = ('q', 'inv', 'invfound', 'reuse', 'sfail', 'commit', 'rollback', 'clean', 'refuse',
               'nestedreuse', 'failrec')
 
@@ -74,8 +74,9 @@ def validate_batch(traces, cfg=None, module='FBTrace.tla', timeout=1800, workdir
         verdicts = {}
         for m in VERDICT_RE.finditer(out):
             verdicts[m.group(1)] = {'verdict': m.group(2), 'at': int(m.group(3)), 'clause': m.group(4),
-                                    'st': dict(zip(STAT_NAMES, [int(x) for x in m.group(5).split(',')])),
-                                    'kf': re.findall(r'"([^"]+)"', m.group(6))}
+                                    'also': re.findall(r'"([^"]+)"', m.group(5)),
+                                    'st': dict(zip(STAT_NAMES, [int(x) for x in m.group(6).split(',')])),
+                                    'kf': re.findall(r'"([^"]+)"', m.group(7))}
         stats = parse_stats(out)
         if len(verdicts) != len(traces) or 'Model checking completed' not in out:
             raise TlcError('TLC did not produce a verdict for every trace (%d of %d)\n%s'
